@@ -19,121 +19,162 @@ Fr = Fraction
 
 
 # ----------------------------------------------------------------------------
-# exact grid models.  Support [T0, T0+L*U], unit cells i = 0..L-1.
+# exact grid models.  A grid G is a strictly increasing list of exactly
+# representable positions G[0..n]; cell i spans G[i]..G[i+1].  The regular grid
+# reg(L) is the time lattice; near(L) adds positions 2^-30 next to lattice
+# points so that near-ties (breakpoints that are close but not equal) are
+# states of the exploration.  "Half-index" coordinates p2 = 0..2n address the
+# grid points (even) and the cell midpoints (odd).
 # ----------------------------------------------------------------------------
+DELTA = 2.0 ** -30
+
+
+def reg(L):
+    return [T0 + i * U for i in range(L + 1)]
+
+
+def near(L):
+    """lattice 0..L plus near-tie companions of the interior lattice points"""
+    g = [T0]
+    for i in range(1, L):
+        t = T0 + i * U
+        g += ([t - DELTA, t] if i % 2 == 0 else [t, t + DELTA])
+    g.append(T0 + L * U)
+    return g
+
+
+def as_grid(L_or_G):
+    if isinstance(L_or_G, int):
+        return reg(L_or_G)
+    return list(L_or_G)
+
+
+def pos(G, p2):
+    """exact position of half-index p2"""
+    if p2 % 2 == 0:
+        return Fr(G[p2 // 2])
+    return (Fr(G[p2 // 2]) + Fr(G[p2 // 2 + 1])) / 2
+
+
+def fpos(G, p2):
+    return float(pos(G, p2))
+
+
 class ModelPWC(object):
-    """breakpoint set (interior lattice indices) + value per unit cell"""
+    """breakpoint set (interior grid indices) + value per grid cell"""
     kind = "pwc"
 
-    def __init__(self, L, bps, cells):
-        self.L = L
+    def __init__(self, G, bps, cells):
+        self.G = G
+        self.n = len(G) - 1
         self.bps = frozenset(bps)
         self.cells = tuple(Fr(v) for v in cells)
 
     def key(self):
-        return ("pwc", self.L, tuple(sorted(self.bps)), self.cells)
+        return ("pwc", tuple(self.G), tuple(sorted(self.bps)), self.cells)
 
     def add(self, g):
-        return ModelPWC(self.L, self.bps | g.bps, [a + b for a, b in zip(self.cells, g.cells)])
+        return ModelPWC(self.G, self.bps | g.bps, [a + b for a, b in zip(self.cells, g.cells)])
 
     def mul(self, c):
-        return ModelPWC(self.L, self.bps, [a * Fr(c) for a in self.cells])
+        return ModelPWC(self.G, self.bps, [a * Fr(c) for a in self.cells])
 
     def expected(self):
         """(x, y) the implementation object must hold"""
-        idx = [0] + sorted(self.bps) + [self.L]
-        x = [T0 + i * U for i in idx]
+        idx = [0] + sorted(self.bps) + [self.n]
+        x = [float(self.G[i]) for i in idx]
         y = [float(self.cells[i]) for i in idx[:-1]]
         return x, (y,)
 
     def integral(self, a2=None, b2=None):
-        """exact integral over [a2/2, b2/2] in lattice units (half-lattice ends) * U"""
+        """exact integral between the half-index positions a2 < b2"""
         if a2 is None:
-            a2, b2 = 0, 2 * self.L
+            a2, b2 = 0, 2 * self.n
+        lo_t, hi_t = pos(self.G, a2), pos(self.G, b2)
         tot = Fr(0)
         for i, v in enumerate(self.cells):
-            lo, hi = max(2 * i, a2), min(2 * i + 2, b2)
+            lo, hi = max(Fr(self.G[i]), lo_t), min(Fr(self.G[i + 1]), hi_t)
             if hi > lo:
-                tot += v * Fr(hi - lo, 2)
-        return tot * Fr(U)
+                tot += v * (hi - lo)
+        return tot
 
     def value(self, t2):
-        """value at half-lattice point t2/2 following the C10 evaluation rules"""
+        """value at half-index position t2 following the C10 evaluation rules"""
         if t2 == 0:
             return self.cells[0]
-        if t2 == 2 * self.L:
+        if t2 == 2 * self.n:
             return self.cells[-1]
         if t2 % 2 == 0 and (t2 // 2) in self.bps:
             return (self.cells[t2 // 2 - 1] + self.cells[t2 // 2]) / 2
-        return self.cells[t2 // 2] if t2 % 2 else self.cells[t2 // 2]
+        return self.cells[t2 // 2]
 
 
 class ModelPWL(object):
-    """breakpoint set + (left, right) value per unit cell"""
+    """breakpoint set + (left, right) value per grid cell"""
     kind = "pwl"
 
-    def __init__(self, L, bps, cells):
-        self.L = L
+    def __init__(self, G, bps, cells):
+        self.G = G
+        self.n = len(G) - 1
         self.bps = frozenset(bps)
         self.cells = tuple((Fr(a), Fr(b)) for a, b in cells)
 
     def key(self):
-        return ("pwl", self.L, tuple(sorted(self.bps)), self.cells)
+        return ("pwl", tuple(self.G), tuple(sorted(self.bps)), self.cells)
 
     def add(self, g):
-        return ModelPWL(self.L, self.bps | g.bps,
+        return ModelPWL(self.G, self.bps | g.bps,
                         [(a[0] + b[0], a[1] + b[1]) for a, b in zip(self.cells, g.cells)])
 
     def mul(self, c):
-        return ModelPWL(self.L, self.bps, [(a * Fr(c), b * Fr(c)) for a, b in self.cells])
+        return ModelPWL(self.G, self.bps, [(a * Fr(c), b * Fr(c)) for a, b in self.cells])
 
     def expected(self):
-        idx = [0] + sorted(self.bps) + [self.L]
-        x = [T0 + i * U for i in idx]
+        idx = [0] + sorted(self.bps) + [self.n]
+        x = [float(self.G[i]) for i in idx]
         y1 = [float(self.cells[i][0]) for i in idx[:-1]]
         y2 = [float(self.cells[i - 1][1]) for i in idx[1:]]
         return x, (y1, y2)
 
-    def _at(self, i, frac):
+    def _at(self, i, t):
         a, b = self.cells[i]
-        return a + (b - a) * frac
+        return a + (b - a) * (t - Fr(self.G[i])) / (Fr(self.G[i + 1]) - Fr(self.G[i]))
 
     def integral(self, a2=None, b2=None):
         if a2 is None:
-            a2, b2 = 0, 2 * self.L
+            a2, b2 = 0, 2 * self.n
+        lo_t, hi_t = pos(self.G, a2), pos(self.G, b2)
         tot = Fr(0)
-        for i in range(self.L):
-            lo, hi = max(2 * i, a2), min(2 * i + 2, b2)
+        for i in range(self.n):
+            lo, hi = max(Fr(self.G[i]), lo_t), min(Fr(self.G[i + 1]), hi_t)
             if hi > lo:
-                vl = self._at(i, Fr(lo - 2 * i, 2))
-                vh = self._at(i, Fr(hi - 2 * i, 2))
-                tot += (vl + vh) / 2 * Fr(hi - lo, 2)
-        return tot * Fr(U)
+                tot += (self._at(i, lo) + self._at(i, hi)) / 2 * (hi - lo)
+        return tot
 
     def value(self, t2):
         if t2 == 0:
             return self.cells[0][0]
-        if t2 == 2 * self.L:
+        if t2 == 2 * self.n:
             return self.cells[-1][1]
         if t2 % 2 == 0 and (t2 // 2) in self.bps:
             return (self.cells[t2 // 2 - 1][1] + self.cells[t2 // 2][0]) / 2
-        i = t2 // 2 if t2 % 2 else t2 // 2
         if t2 % 2 == 0:
-            # interior lattice point that is not a breakpoint: function is continuous
-            return self.cells[i][0]
-        return self._at(i, Fr(1, 2))
+            # interior grid point that is not a breakpoint: function is continuous there
+            return self.cells[t2 // 2][0]
+        return self._at(t2 // 2, pos(self.G, t2))
 
 
 class ModelDisc(object):
-    """events on lattice points 0..L (edges included): {index: (y, mp)}"""
+    """events on grid points 0..n (edges included): {index: (y, mp)}"""
     kind = "disc"
 
-    def __init__(self, L, events):
-        self.L = L
+    def __init__(self, G, events):
+        self.G = G
+        self.n = len(G) - 1
         self.events = {int(k): (Fr(v[0]), Fr(v[1])) for k, v in events.items()}
 
     def key(self):
-        return ("disc", self.L, tuple(sorted(self.events.items())))
+        return ("disc", tuple(self.G), tuple(sorted(self.events.items())))
 
     def add(self, g):
         ev = dict(self.events)
@@ -142,21 +183,21 @@ class ModelDisc(object):
                 ev[k] = (ev[k][0] + y, ev[k][1] + m)
             else:
                 ev[k] = (y, m)
-        return ModelDisc(self.L, ev)
+        return ModelDisc(self.G, ev)
 
     def mul(self, c):
-        return ModelDisc(self.L, {k: (y * Fr(c), m) for k, (y, m) in self.events.items()})
+        return ModelDisc(self.G, {k: (y * Fr(c), m) for k, (y, m) in self.events.items()})
 
     def expected(self):
         ks = sorted(self.events)
-        x = [T0] + [T0 + k * U for k in ks] + [T0 + self.L * U]
+        x = [float(self.G[0])] + [float(self.G[k]) for k in ks] + [float(self.G[-1])]
         y = [float(self.events[k][0]) for k in ks]
         mp = [float(self.events[k][1]) for k in ks]
         return x, (y, mp)
 
     def integral(self, a2=None, b2=None):
-        """(sum y, sum mp) over events strictly inside (a2/2, b2/2); all events
-        when no interval is given"""
+        """(sum y, sum mp) over events strictly inside the half-index positions
+        (a2, b2); all events when no interval is given"""
         ys, ms = Fr(0), Fr(0)
         for k, (y, m) in self.events.items():
             if a2 is None or (a2 < 2 * k < b2):
@@ -179,13 +220,15 @@ PWL_PATTERNS = ["ramp", "jump", "negslope"]
 DISC_PATTERNS = ["ones", "mixed"]
 
 
-def pwc_menu(L, patterns=PWC_PATTERNS):
-    """all breakpoint subsets of the interior lattice points x value patterns.
+def pwc_menu(L_or_G, patterns=PWC_PATTERNS):
+    """all breakpoint subsets of the interior grid points x value patterns.
     Returns list of (name, ctor_args, model)."""
+    G = as_grid(L_or_G)
+    n = len(G) - 1
     out = []
-    for bps in _subsets(L - 1):
-        idx = [0] + list(bps) + [L]
-        x = [T0 + i * U for i in idx]
+    for bps in _subsets(n - 1):
+        idx = [0] + list(bps) + [n]
+        x = [G[i] for i in idx]
         npieces = len(idx) - 1
         for pat in patterns:
             if pat == "pos":
@@ -200,60 +243,65 @@ def pwc_menu(L, patterns=PWC_PATTERNS):
             for j in range(npieces):
                 cells += [y[j]] * (idx[j + 1] - idx[j])
             out.append(("pwc:%s:%s" % (",".join(map(str, bps)), pat), (x, y),
-                        ModelPWC(L, bps, cells)))
+                        ModelPWC(G, bps, cells)))
     return out
 
 
-def pwl_menu(L, patterns=PWL_PATTERNS):
+def pwl_menu(L_or_G, patterns=PWL_PATTERNS):
+    G = as_grid(L_or_G)
+    n = len(G) - 1
     out = []
-    for bps in _subsets(L - 1):
-        idx = [0] + list(bps) + [L]
-        x = [T0 + i * U for i in idx]
+    for bps in _subsets(n - 1):
+        idx = [0] + list(bps) + [n]
+        x = [G[i] for i in idx]
         npieces = len(idx) - 1
         for pat in patterns:
             y1, y2, cells = [], [], []
             for j in range(npieces):
-                n = idx[j + 1] - idx[j]
-                if pat == "ramp":          # continuous ramp, slope 1 per unit
-                    a, s = float(idx[j]), 1.0
-                elif pat == "jump":        # jumps at breakpoints, slope 1/2 per unit
+                # slope s per lattice unit U; all values stay dyadic
+                if pat == "ramp":          # continuous ramp
+                    a, s = (G[idx[j]] - G[0]) / U, 1.0
+                elif pat == "jump":        # jumps at breakpoints
                     a, s = float(j + 1) * (1.0 if j % 2 == 0 else -1.0), 0.5
                 else:                      # negative slope
                     a, s = float(2 * j + 1), -0.25
-                y1.append(a)
-                y2.append(a + s * n)
-                for u in range(n):
-                    cells.append((a + s * u, a + s * (u + 1)))
+                val = lambda t: a + s * (t - G[idx[j]]) / U
+                y1.append(val(G[idx[j]]))
+                y2.append(val(G[idx[j + 1]]))
+                for u in range(idx[j], idx[j + 1]):
+                    cells.append((val(G[u]), val(G[u + 1])))
             out.append(("pwl:%s:%s" % (",".join(map(str, bps)), pat), (x, y1, y2),
-                        ModelPWL(L, bps, cells)))
+                        ModelPWL(G, bps, cells)))
     return out
 
 
-def disc_menu(L, patterns=DISC_PATTERNS, max_events=None):
-    """event subsets of the lattice points 0..L (edges included)"""
+def disc_menu(L_or_G, patterns=DISC_PATTERNS, max_events=None):
+    """event subsets of the grid points 0..n (edges included)"""
+    G = as_grid(L_or_G)
+    n = len(G) - 1
     out = []
-    for size in range(L + 2):
+    for size in range(n + 2):
         if max_events is not None and size > max_events:
             break
-        for ks in combinations(range(L + 1), size):
+        for ks in combinations(range(n + 1), size):
             for pat in patterns:
                 ev = {}
-                for n, k in enumerate(ks):
+                for m_, k in enumerate(ks):
                     if pat == "ones":
-                        ev[k] = (float(n % 2), 1.0)
+                        ev[k] = (float(m_ % 2), 1.0)
                     else:
-                        ev[k] = (float((n % 3)), float(1 + (n + k) % 2))
-                m = ModelDisc(L, ev)
-                xs = [T0 + k * U for k in ks]
+                        ev[k] = (float((m_ % 3)), float(1 + (m_ + k) % 2))
+                m = ModelDisc(G, ev)
+                xs = [G[k] for k in ks]
                 ys = [ev[k][0] for k in ks]
                 ms = [ev[k][1] for k in ks]
                 # edge entries: copies of the first/last event (as the library builds them)
                 if ks:
-                    x = [T0] + xs + [T0 + L * U]
+                    x = [G[0]] + xs + [G[-1]]
                     y = [ys[0]] + ys + [ys[-1]]
                     mp = [ms[0]] + ms + [ms[-1]]
                 else:
-                    x = [T0, T0 + L * U]
+                    x = [G[0], G[-1]]
                     y = [1.0, 1.0]
                     mp = [1.0, 1.0]
                 out.append(("disc:%s:%s" % (",".join(map(str, ks)), pat), (x, y, mp), m))
@@ -311,13 +359,55 @@ def replay_history(kind, menu_by_name, hist):
 # ----------------------------------------------------------------------------
 # the explorer
 # ----------------------------------------------------------------------------
+def do_transition(kind, by_name, hist, ev, probe_name):
+    """Rebuild the live object for `hist`, apply event `ev` with all
+    per-transition checks.  Returns (new_obj, new_model, violations) where
+    violations = [(sub, expected, observed, message)]; new_obj is None when the
+    operation raised."""
+    viol = []
+    obj, model = replay_history(kind, by_name, hist)       # fresh live object
+    before = canon(kind, obj)
+    try:
+        if ev[0] == "add":
+            gargs, gm = by_name[ev[1]]
+            g = build(kind, gargs)
+            snap = snapshot(kind, g)
+            obj.add(g)
+            if snapshot(kind, g) != snap:
+                viol.append(("operand_modified", "operand unchanged", canon(kind, g),
+                             "add() modified its operand"))
+            return obj, model.add(gm), viol
+        if ev[0] == "mul":
+            obj.mul_scalar(ev[1])
+            return obj, model.mul(ev[1]), viol
+        # copy: copies are independent of their originals, in both directions
+        c1 = obj.copy()
+        c1.mul_scalar(3.0)
+        gargs, gm = by_name[probe_name]
+        c1.add(build(kind, gargs))
+        if canon(kind, obj) != before:
+            viol.append(("copy_aliased", before, canon(kind, obj),
+                         "modifying a copy changed the original"))
+        c2 = obj.copy()
+        keep = canon(kind, c2)
+        obj.mul_scalar(3.0)
+        if canon(kind, c2) != keep:
+            viol.append(("copy_aliased", keep, canon(kind, c2),
+                         "modifying the original changed its copy"))
+        return c2, model, viol
+    except Exception as e:
+        viol.append(("exception", "operation succeeds", "%s: %s" % (type(e).__name__, e),
+                     "%s raised on a valid function" % ev[0]))
+        return None, None, viol
+
+
 def explore(kind, menu, init_names, add_names, scalars, depth, r, on_state, on_violation,
             with_copy=True):
     """Breadth-first search from every init function.
 
     on_state(obj, model, hist) is the invariant evaluated in every new state;
     on_violation(sub, hist, expected, observed, message) records a violation.
-    Returns nothing; counts states/transitions/merges in r.
+    Counts states/transitions/merges in r.
     """
     import collections
     by_name = {n: (a, m) for n, a, m in menu}
@@ -332,63 +422,60 @@ def explore(kind, menu, init_names, add_names, scalars, depth, r, on_state, on_v
             r.states += 1
             on_state(obj, model, hist)
             frontier.append(hist)
+    events = [("add", g) for g in add_names] + [("mul", c) for c in scalars]
+    if with_copy:
+        events.append(("copy", None))
     while frontier:
         hist = frontier.popleft()
         if len(hist) - 1 >= depth:
             continue
-        events = [("add", g) for g in add_names] + [("mul", c) for c in scalars]
-        if with_copy:
-            events.append(("copy", None))
         for ev in events:
             r.transitions += 1
-            obj, model = replay_history(kind, by_name, hist)       # fresh live object
-            before = canon(kind, obj)
-            try:
-                if ev[0] == "add":
-                    gargs, gm = by_name[ev[1]]
-                    g = build(kind, gargs)
-                    snap = snapshot(kind, g)
-                    obj.add(g)
-                    if snapshot(kind, g) != snap:
-                        on_violation("operand_modified", hist + [ev], "operand unchanged",
-                                     canon(kind, g), "add() modified its operand")
-                    nmodel = model.add(gm)
-                    nobj = obj
-                elif ev[0] == "mul":
-                    obj.mul_scalar(ev[1])
-                    nmodel = model.mul(ev[1])
-                    nobj = obj
-                else:
-                    nobj = obj.copy()
-                    nmodel = model
-                    # copies are independent of their originals
-                    nobj.mul_scalar(3.0)
-                    gargs, gm = by_name[add_names[0]]
-                    nobj.add(build(kind, gargs))
-                    if canon(kind, obj) != before:
-                        on_violation("copy_aliased", hist + [ev], before, canon(kind, obj),
-                                     "modifying a copy changed the original")
-                    nobj = obj.copy()
-            except Exception as e:
-                on_violation("exception", hist + [ev], "operation succeeds",
-                             "%s: %s" % (type(e).__name__, e),
-                             "%s raised on a valid function" % ev[0])
-                continue
+            nobj, nmodel, viol = do_transition(kind, by_name, hist, ev, add_names[0])
             nh = hist + [ev]
+            for sub, exp, obs, msg in viol:
+                on_violation(sub, nh, exp, obs, msg)
+            if nobj is None:
+                continue
             k = nmodel.key()
             c = canon(kind, nobj)
             if k in seen:
                 r.count("merges")
                 first, fh = seen[k]
                 if not _canon_close(first, c, kind):
-                    on_violation("order_dependence", nh, first, c,
-                                 "two histories denoting the same function (%r) produced "
-                                 "different objects" % (fh,))
+                    on_violation("order_dependence", {"history": nh, "other_history": fh},
+                                 first, c, "two histories denoting the same function "
+                                 "produced different objects")
                 continue
             seen[k] = (c, nh)
             r.states += 1
             on_state(nobj, nmodel, nh)
             frontier.append(nh)
+
+
+def norm_hist(h):
+    return [tuple(e) if isinstance(e, list) else e for e in h]
+
+
+def replay_checks(kind, menu, hist, probe_name, state_check):
+    """Replay one history step by step with every per-transition and per-state
+    check; returns [(sub, expected, observed, message)]."""
+    by_name = {n: (a, m) for n, a, m in menu}
+    hist = norm_hist(hist)
+    out = []
+    obj, model = replay_history(kind, by_name, hist[:1])
+    bad = state_check(obj, model)
+    if bad:
+        out.append(bad)
+    for i in range(1, len(hist)):
+        nobj, nmodel, viol = do_transition(kind, by_name, hist[:i], hist[i], probe_name)
+        out.extend(viol)
+        if nobj is None:
+            break
+        bad = state_check(nobj, nmodel)
+        if bad:
+            out.append(bad)
+    return out
 
 
 def _canon_close(a, b, kind, tol=1e-10):
